@@ -117,6 +117,8 @@ type revCfg struct {
 	Available bool   `json:"available"`
 	Objects   string `json:"objects"` // a | b | ab
 	Control   string `json:"control"` // reported | unreported | none
+	// Terminating: the revision was deleted earlier (pruned) and its teardown has not finished
+	Terminating bool `json:"terminating,omitempty"`
 }
 
 type chainCase struct {
@@ -138,7 +140,7 @@ func allRevCfgs(objs []string, ctrls []string) []revCfg {
 			for _, a := range []bool{false, true} {
 				for _, o := range objs {
 					for _, c := range ctrls {
-						out = append(out, revCfg{l, p, a, o, c})
+						out = append(out, revCfg{Lifecycle: l, PausedOK: p, Available: a, Objects: o, Control: c})
 					}
 				}
 			}
@@ -241,6 +243,11 @@ func buildChain(cc chainCase) *world.World {
 			panic(err)
 		}
 	}
+	for i, rc := range cc.Revs {
+		if rc.Terminating {
+			_ = w.S.Delete(osw.OSKey(names[i]), kmodel.DeleteOpts{}) // finalizer present: stays, terminating
+		}
+	}
 	return w
 }
 
@@ -306,12 +313,48 @@ func enumerate(quick bool) []chainCase {
 			}
 		}
 	}
+	// pruning chains: 3 and 4 revisions whose older members are paused or archived, available or
+	// not, and possibly still terminating from an earlier pruning; every revisionHistoryLimit
+	for _, n := range []int{3, 4} {
+		var opts []revCfg
+		for _, l := range []string{"Paused", "Archived"} {
+			for _, a := range []bool{false, true} {
+				for _, t := range []bool{false, true} {
+					opts = append(opts, revCfg{Lifecycle: l, PausedOK: true, Available: a, Objects: "a", Control: "none", Terminating: t})
+				}
+			}
+		}
+		idx := make([]int, n-1)
+		for {
+			for _, na := range []bool{false, true} {
+				for _, l := range []int{-1, 0, 1, 2} {
+					cc := chainCase{Limit: l, Matches: true}
+					for _, i := range idx {
+						cc.Revs = append(cc.Revs, opts[i])
+					}
+					cc.Revs = append(cc.Revs, revCfg{Lifecycle: "Active", Available: na, Objects: "a", Control: "reported"})
+					out = append(out, cc)
+				}
+			}
+			j := 0
+			for ; j < len(idx); j++ {
+				idx[j]++
+				if idx[j] < len(opts) {
+					break
+				}
+				idx[j] = 0
+			}
+			if j == len(idx) {
+				break
+			}
+		}
+	}
 	return out
 }
 
 func runTable(o checks.Opts) *report.Report {
 	rep := report.New("C08", "decision")
-	rep.Rule = "one real ObjectDeployment pass over every pre-populated chain of 2 revisions (each: lifecycle Active/Paused/Archived x Paused condition x Available x objects {a},{b},{a,b} x control reported/unreported/none; revisionHistoryLimit nil/0/1/2; newest matching the template or not) and of 3 revisions (quick: two-valued control, fixed object sets; thorough: full alphabets), managed objects in the store consistent with the control relation; every archive/delete request judged against Appendix A.2; distinct = set of lifecycle actions taken"
+	rep.Rule = "one real ObjectDeployment pass over every pre-populated chain of 2 revisions (each: lifecycle Active/Paused/Archived x Paused condition x Available x objects {a},{b},{a,b} x control reported/unreported/none; revisionHistoryLimit nil/0/1/2; newest matching the template or not) and of 3 revisions (quick: two-valued control, fixed object sets; thorough: full alphabets), and pruning chains of 3 and 4 revisions (older members paused/archived x Available x still terminating from an earlier pruning; limit nil/0/1/2); managed objects in the store consistent with the control relation; every archive/delete request judged against Appendix A.2; distinct = set of lifecycle actions taken"
 	cases := enumerate(o.Quick())
 	rep.Bounds["cases"] = len(cases)
 	for i, cc := range cases {
